@@ -2,7 +2,7 @@ INIT Init
 NEXT Next
 CONSTANTS
   Part = "formula"
-  MaxDims = 2
+  MaxDims = 1
   Rich = TRUE
 INVARIANT LawMust
 INVARIANT LawNoCredit
